@@ -1750,7 +1750,11 @@ func (q *checker) bcheckExprBinaryOp1(op t.ID, lhs *a.Expr, lb bounds, rhs *a.Ex
 			return nb, nil
 		case t.IDXBinaryTildeModShiftL:
 			nb, _ := lb.TryLsh(rb)
-			nb[1] = min(nb[1], typeBounds[1])
+			if nb[1].Cmp(typeBounds[1]) > 0 {
+				// The shift can overflow and wrap around: the lower bound is
+				// not necessarily preserved.
+				return bounds{zero, typeBounds[1]}, nil
+			}
 			return nb, nil
 		case t.IDXBinaryShiftR:
 			nb, _ := lb.TryRsh(rb)
